@@ -11,6 +11,9 @@ from . import gen, models, seams, simfs
 from .core import HarnessError, Sim, SimCrash
 
 TEMP_MODES = ("inside", "ext_uuid", "ext_plain")
+# ... plus a scratch directory NEXT to the dataset whose path starts with the dataset's path
+# string (<path>.tmp/...): outside the dataset, although a prefix test says otherwise
+TEMP_MODES_ALL = TEMP_MODES + ("ext_sibling",)
 
 
 # ------------------------------------------------------------------ generation
@@ -46,17 +49,30 @@ def gen_pack_case(rng, tier="quick", small=False):
         parts = {"mode": "splits", "splits": gen.gen_splits(rng, nrows, k_in)}
     else:
         parts = {"mode": "even", "k": k_in}
+    presorted = None
+    if nrows >= 12 and rng.random() < 0.12:
+        presorted = rng.choice((11, 12))
     case = {
         "frame": frame,
         "parts": parts,
         "npartitions": rng.choice((1, 2, 3, 4, 5, 7, 8, 11, 12, 16)),
         "p": rng.choice((1, 2, 4, 6, 10, 15, 20)),
-        "tempdir": rng.choice(TEMP_MODES),
+        "tempdir": rng.choice(TEMP_MODES_ALL),
         "compression": rng.choice(("snappy", "gzip", None)),
         "prev": None,
         "sim": gen_sim_cfg(rng),
         "store": gen_store_cfg(rng),
     }
+    if presorted:
+        # input that is already in curve order, in 11 or 12 partitions (sub-part names part10,
+        # part11 sort before part2 as strings)
+        d = expected_distances(frame, case["p"])
+        if d is not None:
+            order = sorted(range(nrows), key=lambda i: (models.cell(d[i]), i))
+            cuts = sorted(rng.sample(range(1, nrows), presorted - 1))
+            edges = [0] + cuts + [nrows]
+            case["parts"] = {"mode": "splits", "presorted": True,
+                             "splits": [order[a:b] for a, b in zip(edges, edges[1:])]}
     if rng.random() < 0.15:
         # the frame that is packed was itself read back from a packed dataset (another p,
         # another partition count): its index is already called hilbert_distance
@@ -101,6 +117,9 @@ def make_ddf(gdf, parts, tag="in"):
 def tempdir_format(root, mode):
     if mode == "inside":
         return None
+    if mode == "ext_sibling":
+        os.makedirs(os.path.join(root, "ds.tmp"), exist_ok=True)
+        return os.path.join(root, "ds.tmp", "t-{uuid}-{partition}")
     os.makedirs(os.path.join(root, "tmp"), exist_ok=True)
     if mode == "ext_uuid":
         return os.path.join(root, "tmp", "t-{uuid}-{partition}")
@@ -155,10 +174,12 @@ def inspect_tree(root, name="ds"):
         for name in sorted(os.listdir(ds)):
             full = os.path.join(ds, name)
             (out["dirs"] if os.path.isdir(full) else out["files"]).append(name)
-    tmp = os.path.join(root, "tmp")
-    if os.path.isdir(tmp):
-        out["tmp"] = sorted(os.listdir(tmp))
-    out["other"] = sorted(n for n in os.listdir(root) if n not in ("ds", "tmp", "ds_src"))
+    for tname in ("tmp", "ds.tmp"):
+        tmp = os.path.join(root, tname)
+        if os.path.isdir(tmp):
+            out["tmp"] = sorted(out["tmp"] + os.listdir(tmp))
+    out["other"] = sorted(n for n in os.listdir(root)
+                          if n not in ("ds", "tmp", "ds.tmp", "ds_src"))
     return out
 
 
